@@ -235,7 +235,7 @@ def parseFloatText (s : Bytes) : Option FV :=
   let low := body.map lowerB
   let sgn (x : Float) : Float := if neg then -x else x
   if low = [105, 110, 102] || low = [105, 110, 102, 105, 110, 105, 116, 121] then some (some (sgn infF))
-  else if low = [110, 97, 110] then some (some nanF)
+  else if low = [110, 97, 110] then (if body.length = s.length then some (some nanF) else none)   -- no sign before "nan"
   else if body.contains 95 || low.take 2 = [48, 120] then some none
   else
     -- mantissa with optional exponent sign
